@@ -71,6 +71,8 @@ def main(argv):
     if st:
         print("REFUSING: /repo working tree is not clean:", st[:200])
         return 2
+    evf = os.path.join(HOME, "evidence", f"{check_prop}.json")
+    ev_backup = open(evf).read() if os.path.exists(evf) else None   # evidence must describe the UNCHANGED tree
     try:
         pr = subprocess.run(["git", "-C", "/repo", "apply", patch], capture_output=True, text=True)
         if pr.returncode != 0:
@@ -82,6 +84,9 @@ def main(argv):
         p = subprocess.run([os.path.join(HOME, "check"), check_prop, tier], cwd=HOME, env=env, capture_output=True, text=True, timeout=7200)
     finally:
         subprocess.run(["git", "-C", "/repo", "checkout", "--", "."], capture_output=True)
+        if ev_backup is not None:
+            with open(evf, "w") as f:
+                f.write(ev_backup)
     viol = [l for l in p.stdout.splitlines() if l.startswith("VIOLATION")]
     sigs = [l.strip() for l in p.stdout.splitlines() if l.strip().startswith("leg=")]
     out["check"] = {"cmd": f"./check {check_prop} {tier}", "exit": p.returncode, "violations": len(viol), "signatures": sigs[:8]}
